@@ -4,6 +4,7 @@
 pub mod backend;
 pub mod ck_crash;
 pub mod ck_engine;
+pub mod ck_storage;
 pub mod driver;
 pub mod hist;
 pub mod known;
